@@ -48,6 +48,7 @@ COMPS = ['a', 'b', 'c', 'A', 'Inbox', 'x*', '%y', 'q"t', 'b\\s', 'n\nl', 'é',
          '中 文', 'a b', 'a&b', '~', 'inbox']
 PATTERNS = ['*', '%', '%/%', 'a*', '*b', 'a/%', 'a/*', '*/c', 'INB*', 'inbox',
             '%b%', 'a/%/c', '*x*', 'n*', '*\n*', '%l', 'q*', '*é', 'A']
+PTOKENS = ['*', '%', '/', 'a', 'b', 'c', 'A', '*']
 OPS = ['create', 'create', 'create', 'delete', 'rename', 'rename',
        'subscribe', 'unsubscribe', 'list', 'list', 'lsub', 'status',
        'select', 'append', 'append']
@@ -55,7 +56,8 @@ OPS = ['create', 'create', 'create', 'delete', 'rename', 'rename',
 
 def strategy(tier: str) -> Any:
     r = st.integers(0, 40)
-    step = st.tuples(st.sampled_from(OPS), r, r, r, r).map(list)
+    step = st.tuples(st.sampled_from(OPS), r, r, r, r,
+                     st.integers(0, 3 * 8 ** 5)).map(list)
     return st.fixed_dictionaries({
         'backend': st.sampled_from(['dict', 'dict', 'maildir++',
                                     'maildirfs']),
@@ -136,7 +138,8 @@ def run_case(case: dict[str, Any]) -> CaseOut:
         for step in case['prog']:
             if out.failures or c.conn.done:
                 break
-            op, a, b, k, d = step
+            op, a, b, k, d = step[:5]
+            p = step[5] if len(step) > 5 else 0
             existing = sorted(n for n in names if n != 'INBOX')
             nm = _canon(_name(a, b, existing))
             if op == 'rename' and existing and a % 5:
@@ -270,6 +273,15 @@ def run_case(case: dict[str, Any]) -> CaseOut:
             elif op in ('list', 'lsub'):
                 ref = ['', '', 'a', 'a/', nm + '/', nm][k % 6]
                 pat = PATTERNS[d % len(PATTERNS)] if a % 5 else nm
+                if p % 3:
+                    # composed from tokens: every order of '*', '%', the
+                    # delimiter and name fragments up to five tokens long
+                    q, pat = p // 3, ''
+                    for _ in range(1 + q % 5):
+                        q //= 8
+                        pat += PTOKENS[q % 8]
+                    if '*' in pat and '%' in pat:
+                        out.label('pattern-mixes-star-and-percent')
                 query = ref + pat
                 try:
                     res = c.command(op.upper().encode() + b' ' + _lit(ref)
